@@ -290,7 +290,7 @@ def step (d : DSt) (line : String) : DSt × String :=
     -- a free-running round: the elected participant's call first, then everybody else's
     match wn.toInt? with
     | some wn =>
-      let order : List Nat := (if wn ≥ 0 then [wn.toNat] else []) ++ (List.range args.length).filter (fun p => (p : Int) ≠ wn)
+      let order : List Nat := (if wn ≥ 0 then [wn.toNat] else []) ++ (List.range args.length).filter (fun (p : Nat) => decide ((p : Int) ≠ wn))
       let s' := order.foldl (fun (s : St) p =>
         let a : Int := (args.getD p "0").toInt?.getD 0
         let l : Label := if a < 0 then .callEnsure p else if a = 0 then .callInit p none
